@@ -75,6 +75,75 @@ structure LProto (S σ : Type) where
 def LProto.toX {S σ : Type} (P : LProto S σ) : XProto S σ :=
   { init := P.init, react := fun s n t cb => XProg.ofList (P.next s n t cb) (P.acts s n t cb) }
 
+/-- `p`, then `f` on the state `p` ends in; an exception escaping `p` escapes the whole (`g`: the
+    state left behind) -/
+def XProg.bind {S α β : Type} : XProg S α → (α → XProg S β) → (α → β) → XProg S β
+  | .done a, f, _ => f a
+  | .raise a, _, g => .raise (g a)
+  | .act x k, f, g => .act x (fun b => XProg.bind (k b) f g)
+
+/-! ### handlers plugged in front of a protocol's callbacks
+
+  `gradysim/protocol/plugin/dispatcher.py`: `create_dispatcher(protocol)` replaces the five callback
+  methods OF THE INSTANCE by a chain: the registered handlers, the one registered last first, then the
+  protocol's own method; a handler of `handle_timer / handle_packet / handle_telemetry` that answers
+  INTERRUPT ends the chain (C15 is about the chain itself).  Every stock plugin is built this way, and
+  a protocol creates its plugins in `initialize()` — after the wrapper has instantiated it.  For the
+  wrappers this is just another protocol: `XProto.plugged`. -/
+
+/-- a registered handler: what it does in a callback, ending in the protocol-local state and its
+    answer (`true` = INTERRUPT) -/
+structure Stage (S σ : Type) where
+  react : σ → NodeId → Int → Callback S → XProg S (σ × Bool)
+
+/-- the callbacks whose chain a handler can interrupt (`initialize` and `finish` always run through) -/
+def interruptible {S : Type} : Callback S → Bool
+  | .timer _ => true
+  | .packet _ => true
+  | .telemetry _ => true
+  | _ => false
+
+/-- the wrapped method: handlers in chain order, then the protocol's own method -/
+def chainProg {S σ : Type} (own : σ → XProg S σ) (intr : Bool) : List (σ → XProg S (σ × Bool)) → σ → XProg S σ
+  | [], s => own s
+  | h :: hs, s => XProg.bind (h s) (fun r => if intr && r.2 then .done r.1 else chainProg own intr hs r.1) (·.1)
+
+/-- the protocol `P` with `chain` (in chain order: newest first) in front of its callbacks whenever
+    the instance's methods are wrapped (`on s`: the dispatcher has been created — protocol-local) -/
+def XProto.plugged {S σ : Type} (P : XProto S σ) (on : σ → Bool) (chain : List (Stage S σ)) : XProto S σ :=
+  { init := P.init,
+    react := fun s n t cb =>
+      if on s then
+        chainProg (fun s' => P.react s' n t cb) (interruptible cb) (chain.map (fun h s' => h.react s' n t cb)) s
+      else P.react s n t cb }
+
+/-- a handler whose actions, state change and answer do not depend on acceptance -/
+structure LStage (S σ : Type) where
+  next : σ → NodeId → Int → Callback S → σ
+  acts : σ → NodeId → Int → Callback S → List (Act S)
+  /-- `true` = INTERRUPT -/
+  stop : σ → NodeId → Int → Callback S → Bool
+
+def LStage.toStage {S σ : Type} (h : LStage S σ) : Stage S σ :=
+  { react := fun s n t cb => XProg.ofList (h.next s n t cb, h.stop s n t cb) (h.acts s n t cb) }
+
+/-- the chain of acceptance-independent handlers as ONE list of actions: (state after, actions) -/
+def chainL {S σ : Type} (ownNext : σ → σ) (ownActs : σ → List (Act S)) (intr : Bool) :
+    List (σ → (σ × Bool) × List (Act S)) → σ → σ × List (Act S)
+  | [], s => (ownNext s, ownActs s)
+  | h :: hs, s =>
+    if intr && (h s).1.2 then ((h s).1.1, (h s).2)
+    else ((chainL ownNext ownActs intr hs (h s).1.1).1, (h s).2 ++ (chainL ownNext ownActs intr hs (h s).1.1).2)
+
+/-- an acceptance-independent protocol with acceptance-independent handlers plugged in front -/
+def LProto.plugged {S σ : Type} (P : LProto S σ) (on : σ → Bool) (chain : List (LStage S σ)) : LProto S σ :=
+  let run := fun s n t cb =>
+    chainL (fun s' => P.next s' n t cb) (fun s' => P.acts s' n t cb) (interruptible cb)
+      (chain.map (fun h s' => ((h.next s' n t cb, h.stop s' n t cb), h.acts s' n t cb))) s
+  { init := P.init,
+    next := fun s n t cb => if on s then (run s n t cb).1 else P.next s n t cb,
+    acts := fun s n t cb => if on s then (run s n t cb).2 else P.acts s n t cb }
+
 inductive Outcome (σ : Type)
   | returned (s : σ)
   | raised (s : σ)
@@ -151,6 +220,16 @@ def call (p : Provider) (c : ExtCall) : Result :=
   | .cameraTakePicture =>
     if handler? p "mobility" then ⟨true, true, false⟩ else ⟨true, false, true⟩
   | c => if handler? p (labelOf c) then ⟨true, true, true⟩ else ⟨true, false, true⟩
+
+/-- the lists `take_picture()` has handed out so far, oldest first (entries: node ids).  A returned
+    list belongs to its caller, who may complete, sort or empty it: the album is whatever the callers
+    have made of it. -/
+abbrev Album := List (List Nat)
+
+/-- `take_picture()` hands out a NEW list: what the camera sees when there is a mobility handler,
+    nothing otherwise.  Returns the index of the list handed out. -/
+def takePicture (p : Provider) (sees : List Nat) (al : Album) : Nat × Album :=
+  (al.length, al ++ [if handler? p "mobility" then sees else []])
 
 /-- `CommunicationController.set_transmission_range`: a negative range raises ValueError (before the
     handler is looked at); without a handler the command is ignored. -/
